@@ -738,4 +738,87 @@ theorem comp_value32 (val : Nat) (hval : val ≤ 2 ^ 32) (cs co ds d0 : Nat) (hc
     have := abs_lt.mp this
     omega
 
+theorem exactValue_intro (bits cs co ds d0 n : Nat) (q : Q) (hp : phys bits cs co ds d0 = some q) (hden : q.den ≠ 0)
+    (hq : toRat q = (n : ℚ)) (hn : n < 2 ^ 32) : exactValue bits cs co ds d0 = some n := by
+  unfold exactValue
+  rw [hp]
+  have hdq : (q.den : ℚ) ≠ 0 := by exact_mod_cast hden
+  have hnum : q.num = (n : Int) * (q.den : Int) := by
+    have : (q.num : ℚ) = (n : ℚ) * (q.den : ℚ) := by
+      rw [← hq, toRat]; field_simp
+    exact_mod_cast this
+  have hdi : (q.den : Int) ≠ 0 := by exact_mod_cast hden
+  have hfloor : q.floor = (n : Int) := by
+    unfold Q.floor; rw [hnum]; exact Int.mul_ediv_cancel _ hdi
+  have hint : q.isInt = true := by
+    unfold Q.isInt
+    simp only [Bool.and_eq_true, bne_iff_ne, ne_eq, beq_iff_eq]
+    exact ⟨hden, by rw [hnum]; exact Int.mul_emod_left _ _⟩
+  have hcond : q.isInt = true ∧ 0 ≤ q.floor ∧ q.floor < 2 ^ 32 := by
+    refine ⟨hint, by rw [hfloor]; exact Int.natCast_nonneg _, ?_⟩
+    rw [hfloor]; exact_mod_cast hn
+  simp only
+  rw [if_pos hcond, hfloor, Int.toNat_natCast]
+
+/-- all four scale/offset data of a determined physical value are finite and the first scale is not zero -/
+theorem phys_some (bits cs co ds d0 : Nat) (q : Q) (hp : phys bits cs co ds d0 = some q) :
+    ∃ qcs qco qds qdo, Q.ofF64 cs = some qcs ∧ Q.ofF64 co = some qco ∧ Q.ofF64 ds = some qds ∧ Q.ofF64 d0 = some qdo ∧
+      qcs.num ≠ 0 := by
+  unfold phys at hp
+  cases h1 : Q.ofF64 cs with
+  | none => simp [h1] at hp
+  | some qcs =>
+    cases h2 : Q.ofF64 co with
+    | none => simp [h1, h2] at hp
+    | some qco =>
+      cases h3 : Q.ofF64 ds with
+      | none => simp [h1, h2, h3] at hp
+      | some qds =>
+        cases h4 : Q.ofF64 d0 with
+        | none => simp [h1, h2, h3, h4] at hp
+        | some qdo =>
+          refine ⟨qcs, qco, qds, qdo, rfl, rfl, rfl, rfl, ?_⟩
+          intro hz
+          simp [h1, h2, h3, h4, hz] at hp
+
+/-- **a seed is the total whose physical value is exactly the wire value**: if `((v/DS − DO) + CO)·CS` is the whole
+number `T` (of component units), then the physical value of `T`, `((T/CS − CO) + DO)·DS`, is exactly `v` -/
+theorem seed_inverse (v cs co ds d0 T : Nat) (hv : v < 2 ^ 32) (hseed : exactValue v ds d0 cs co = some T)
+    (hcs : ∃ q, Q.ofF64 cs = some q ∧ q.num ≠ 0) : exactValue T cs co ds d0 = some v := by
+  have hseed' := hseed
+  unfold exactValue at hseed'
+  cases hp : phys v ds d0 cs co with
+  | none => simp [hp] at hseed'
+  | some q0 =>
+    obtain ⟨qds, qdo, qcs, qco, e1, e2, e3, e4, hdsnum⟩ := phys_some v ds d0 cs co q0 hp
+    obtain ⟨qcs', e3', hcsnum⟩ := hcs
+    rw [e3] at e3'; cases e3'
+    -- the forward physical value exists
+    have hp2 : ∃ q, phys T cs co ds d0 = some q := by
+      unfold phys; simp [e1, e2, e3, e4, hcsnum]
+    obtain ⟨q, hq⟩ := hp2
+    obtain ⟨hden, CS, CO, DS, DO, f1, f2, f3, f4, hval⟩ := phys_spec T cs co ds d0 q hq
+    obtain ⟨_, DS', DO', CS', CO', g1, g2, g3, g4, hT⟩ := exactValue_spec v ds d0 cs co T hseed
+    have u1 := isFin_unique _ _ _ f1 g3
+    have u2 := isFin_unique _ _ _ f2 g4
+    have u3 := isFin_unique _ _ _ f3 g1
+    have u4 := isFin_unique _ _ _ f4 g2
+    subst u1 u2 u3 u4
+    obtain ⟨dcs, fcs⟩ := ofF64_spec cs qcs e3
+    obtain ⟨dds, fds⟩ := ofF64_spec ds qds e1
+    have hCS : CS ≠ 0 := by
+      rw [isFin_unique _ _ _ f1 fcs, toRat]
+      have : (qcs.num : ℚ) ≠ 0 := by exact_mod_cast hcsnum
+      have : (qcs.den : ℚ) ≠ 0 := by exact_mod_cast dcs
+      positivity
+    have hDS : DS ≠ 0 := by
+      rw [isFin_unique _ _ _ f3 fds, toRat]
+      have : (qds.num : ℚ) ≠ 0 := by exact_mod_cast hdsnum
+      have : (qds.den : ℚ) ≠ 0 := by exact_mod_cast dds
+      positivity
+    refine exactValue_intro T cs co ds d0 v q hq hden ?_ hv
+    rw [hval, ← hT]
+    field_simp
+    ring
+
 end Fit.C05L
